@@ -107,7 +107,8 @@ func (g *Generator[V]) AsAny() *Generator[any] {
 }
 
 func example[V any](g *Generator[V], t *T) (V, int, error) {
-	defer t.cleanup()
+	failing := false
+	defer t.cleanupCustom(&failing)
 
 	for i := 1; ; i++ {
 		r, err := recoverValue(g, t)
